@@ -250,6 +250,44 @@ def h_profile(ctx):
             ctx.claim("extra coordinate constant", eq(table["extra_coord"].values[k], xv))
 
 
+def _chain_globals(cfg):
+    return {("verde.blockreduce", "block_split"): stubs.BlockSplitContract()}
+
+
+def h_default_region(ctx):
+    """generators called without a region use the bounding box of the data the estimator was fitted to - also for
+    a Chain whose first step thins the data (block reduction) and for a Vector"""
+    cfg = ctx.cfg
+    gridders.reset() if hasattr(gridders, "reset") else None
+    e, n, d = ctx.reals("fe", 3), ctx.reals("fn", 3), ctx.reals("fd", 3)
+    data_region = vc.get_region((e, n))
+    ctx.assume(data_region[0] < data_region[1])
+    ctx.assume(data_region[2] < data_region[3])
+    if cfg["kind"] == "chain_reduce":
+        mean = (lambda v, **kw: np.mean(np.asarray(getattr(v, "values", v)))) if ctx.sym else np.mean
+        est = vd.Chain([("reduce", vd.BlockReduce(mean, shape=(1, 1))), ("uf", UFGridder(ident=7))])
+        est.fit((e, n), d)
+        ncomp = 1
+    elif cfg["kind"] == "chain":
+        est = vd.Chain([("a", UFGridder(ident=6)), ("uf", UFGridder(ident=7))])
+        est.fit((e, n), d)
+        ncomp = 1
+    else:
+        est = vd.Vector([UFGridder(ident=6), UFGridder(ident=7)])
+        est.fit((e, n), (d, ctx.reals("fdd", 3)))
+        ncomp = 2
+    ctx.claim("region_ is the bounding box of the data the estimator was fitted to", And(len(est.region_) == 4, And([eq(a, b) for a, b in zip(est.region_, data_region)])))
+    ds = est.grid(shape=(2, 3))
+    ref = vc.grid_coordinates(data_region, shape=(2, 3))
+    ok = ds.sizes.get("easting") == 3 and ds.sizes.get("northing") == 2
+    ctx.claim("grid() without a region has the requested shape", ok)
+    if ok:
+        ctx.claim("grid() without a region spans the fitted data's bounding box", And([eq(a, b) for a, b in zip(ds.coords["easting"].values, ref[0][0, :])] + [eq(a, b) for a, b in zip(ds.coords["northing"].values, ref[1][:, 0])]))
+    pts = vc.scatter_points(data_region, 2, random_state=3)
+    table = est.scatter(size=2, random_state=3)
+    ctx.claim("scatter() without a region draws its points in the fitted data's bounding box", And(len(table) == 2, And([And(eq(table["easting"].values[k], pts[0][k]), eq(table["northing"].values[k], pts[1][k])) for k in range(min(2, len(table)))])))
+
+
 def _scatter_globals(cfg):
     return {("verde.coordinates", "check_random_state"): stubs.stub_check_random_state}
 
@@ -371,6 +409,14 @@ HARNESSES = [
         bounds="symbolic region, 2-4 points, RNG draws symbolic in [0,1)",
         extra_globals=_scatter_globals,
         stubs=["check_random_state -> StubRandomState (uniform contract)"],
+    ),
+    Harness(
+        "default_region",
+        h_default_region,
+        {"quick": [{"kind": "chain_reduce"}, {"kind": "chain"}, {"kind": "vector"}]},
+        bounds="3 symbolic data points; Chain(BlockReduce(1x1), gridder), Chain of two gridders, Vector of two gridders; grid(shape=(2,3)) and scatter(size=2) without a region",
+        extra_globals=lambda cfg: {**_scatter_globals(cfg), **_chain_globals(cfg)},
+        stubs=["check_random_state -> StubRandomState", "block_split -> C08 contract"],
     ),
     Harness("defaults_and_errors", h_defaults, {"quick": [{}]}, bounds="3 symbolic data points"),
 ]
